@@ -2,12 +2,13 @@
 """Prints the prompt given to an independent sub-agent that seeds a property-breaking change.
 Only the property text and the sandbox build recipe are included — nothing about /verif's checks."""
 import json, sys
-pid = sys.argv[1]
+prop = sys.argv[1]
 extra = sys.argv[2] if len(sys.argv) > 2 else ""
-p = [json.loads(l) for l in open('/verif/properties.jsonl') if json.loads(l)['id'] == pid][0]
+pid = sys.argv[3] if len(sys.argv) > 3 else prop          # directory tag (e.g. C01b for a second change to C01)
+p = [json.loads(l) for l in open('/verif/properties.jsonl') if json.loads(l)['id'] == prop][0]
 print(f"""You are helping evaluate a verification effort for the Ferret compiler (a statically typed language compiler written in Go, with a C runtime). Your job is to act as a *mutation author*: produce one realistic source change to Ferret that BREAKS the semantic property below, while the repository still compiles and its existing Go test suite still passes.
 
-## The property ({pid}: {p['title']})
+## The property ({prop}: {p['title']})
 {p['statement']}
 
 Quantified over: {p['quantifier']['text']}
